@@ -100,3 +100,26 @@ Theorem C15_flatten_commutes : forall us f d todo l,
   fab f d (map (update us) todo) false = Ok (map (update us) l, false).
 Proof. exact fab_update. Qed.
 Print Assumptions C15_flatten_commutes.
+
+(* Tabor, partial: update_volatile_parameters keeps the shape of the tables (which table / waveform every entry refers
+   to, the volatile marks) and every reported modification carries the new value of the count recorded at that
+   position.  The full statement (below, not proved; evaluated as check_spec on every correspondence case) also says
+   that the entries at the recorded positions equal the new counts, that nothing else changes and that the map is
+   exactly the set of changed entries, which needs the recorded positions to address distinct table cells -- false
+   for the unchanged code when tables are shared (known finding C15-tabor-shared-volatile-table). *)
+Theorem C15_tabor_update_partial : forall us ps adv tabs adv' tabs' ms,
+  update_positions us ps adv tabs = (adv', tabs', ms) ->
+  map snd adv' = map snd adv /\ shape_tabs tabs' = shape_tabs tabs /\
+  forall m, In m ms -> exists r, In (mod_pos m, r) ps /\ mod_count m = newval us r.
+Proof. exact update_positions_shape. Qed.
+Print Assumptions C15_tabor_update_partial.
+
+Definition C15_tabor_update_statement : Prop :=
+  forall us st st' ms,
+    update_tabor us st = (st', ms) ->
+    (* every recorded position holds the freshly evaluated count ... *)
+    (forall a r el old, In (PAdv a, r) (t_pos st) -> nth_error (t_adv st) a = Some (old, el) ->
+                        nth_error (t_adv st') a = Some (newval us r, el)) /\
+    (* ... and the modification map names exactly the advanced entries that changed *)
+    (forall a, (exists c el, In (TMod (PAdv a) c el) ms) <->
+               (exists x y, nth_error (t_adv st) a = Some x /\ nth_error (t_adv st') a = Some y /\ fst x <> fst y)).
